@@ -130,7 +130,16 @@ func main() {
 		}
 		if *noEvidence {
 			bad := 0
+			openKF := map[string]bool{}
+			for _, k := range known.Findings {
+				if k.Status == "open" {
+					openKF[k.Rule+"|"+k.Construct] = true
+				}
+			}
 			for _, o := range r.Obs {
+				if o.Status == StViolated && openKF[o.Key()] {
+					continue // listed open finding: not a new report (keeps witness detection non-vacuous)
+				}
 				if o.Status != StOK {
 					bad++
 					fmt.Printf("WITNESS-REPORT %s %s %s %s: %s\n", o.Status, o.Rule, o.Construct, o.Pos, o.Msg)
